@@ -127,7 +127,9 @@ func suiteResp(r *rng, n int) {
 	installClock()
 	// the process has already compressed something per request with a fast custom profile (an uncacheable answer
 	// of another server) before the first cacheable response is stored
-	compress.Reset([]config.CompressConfig{{Name: "fast", Levels: map[string]uint{"gzip": 1, "br": 1}}})
+	// … and a profile whose configured levels are beyond what the codecs know (accepted by the validation; the encoders
+	// fall back to their defaults): the decision table does not depend on the profile
+	compress.Reset([]config.CompressConfig{{Name: "fast", Levels: map[string]uint{"gzip": 1, "br": 1}}, {Name: "odd", Levels: map[string]uint{"gzip": 11, "br": 13}}})
 	for k := 0; k < 4; k++ {
 		compress.Get("fast").Gzip(bytes.Repeat([]byte("warm-up "), 200+k))
 		compress.Get("fast").Brotli(bytes.Repeat([]byte("warm-up "), 200+k))
@@ -140,7 +142,7 @@ func suiteResp(r *rng, n int) {
 			minLen = 1024
 		}
 		filterSrc := cr.pick([]string{"", "", "text|json", "image"})
-		opt := server.ServerOption{Addr: ":0", CompressMinLength: minLenCfg}
+		opt := server.ServerOption{Addr: ":0", CompressMinLength: minLenCfg, Compress: cr.pick([]string{"", "", "", "fast", "odd"})}
 		if filterSrc != "" {
 			opt.CompressContentTypeFilter = regexp.MustCompile(filterSrc)
 		}
